@@ -2012,7 +2012,7 @@ seq_t dtw_warping_paths_affinity_ndim(seq_t *wps,
         wpsi = 1; // index for min_ci
         if (only_triu) {
             if (ci < ri) {
-                for (; ci<ri; ci++) {
+                for (; ci<ri && ci<max_ci; ci++) {
                     wps[ri_width + wpsi] = -INFINITY;
                     wpsi++;
                 }
@@ -2059,7 +2059,7 @@ seq_t dtw_warping_paths_affinity_ndim(seq_t *wps,
         ci = min_ci;
         if (only_triu) {
             if (ci < ri) {
-                for (; ci<ri; ci++) {
+                for (; ci<ri && ci<max_ci; ci++) {
                     wps[ri_width + wpsi] = -INFINITY;
                     wpsi++;
                 }
@@ -2105,7 +2105,7 @@ seq_t dtw_warping_paths_affinity_ndim(seq_t *wps,
         wpsi = 1;
         if (only_triu) {
             if (ci < ri) {
-                for (; ci<ri; ci++) {
+                for (; ci<ri && ci<max_ci; ci++) {
                     wps[ri_width + wpsi] = -INFINITY;
                     wpsi++;
                 }
@@ -2161,7 +2161,7 @@ seq_t dtw_warping_paths_affinity_ndim(seq_t *wps,
         }
         if (only_triu) {
             if (ci < ri) {
-                for (; ci<ri; ci++) {
+                for (; ci<ri && ci<l2; ci++) {
                     wps[ri_width + wpsi] = -INFINITY;
                     wpsi++;
                 }
@@ -2347,7 +2347,7 @@ seq_t dtw_warping_paths_affinity_ndim_euclidean(seq_t *wps,
         wpsi = 1; // index for min_ci
         if (only_triu) {
             if (ci < ri) {
-                for (; ci<ri; ci++) {
+                for (; ci<ri && ci<max_ci; ci++) {
                     wps[ri_width + wpsi] = -INFINITY;
                     wpsi++;
                 }
@@ -2395,7 +2395,7 @@ seq_t dtw_warping_paths_affinity_ndim_euclidean(seq_t *wps,
         ci = min_ci;
         if (only_triu) {
             if (ci < ri) {
-                for (; ci<ri; ci++) {
+                for (; ci<ri && ci<max_ci; ci++) {
                     wps[ri_width + wpsi] = -INFINITY;
                     wpsi++;
                 }
@@ -2442,7 +2442,7 @@ seq_t dtw_warping_paths_affinity_ndim_euclidean(seq_t *wps,
         wpsi = 1;
         if (only_triu) {
             if (ci < ri) {
-                for (; ci<ri; ci++) {
+                for (; ci<ri && ci<max_ci; ci++) {
                     wps[ri_width + wpsi] = -INFINITY;
                     wpsi++;
                 }
@@ -2499,7 +2499,7 @@ seq_t dtw_warping_paths_affinity_ndim_euclidean(seq_t *wps,
         }
         if (only_triu) {
             if (ci < ri) {
-                for (; ci<ri; ci++) {
+                for (; ci<ri && ci<l2; ci++) {
                     wps[ri_width + wpsi] = -INFINITY;
                     wpsi++;
                 }
